@@ -99,6 +99,9 @@ def digest(case):
         hashlib.blake2b(canon(case).encode(), digest_size=8).digest(), "big")
 
 
+_PROCESS_TZ = ["UTC", "UTC", "EST5", "AEST-10", "NST3:30"]
+
+
 def _seed_global_rng(case):
     """Code under test that draws from numpy's global generator without being
     seeded by the oracle sees a stream that depends on the case only, so a
@@ -109,6 +112,12 @@ def _seed_global_rng(case):
     # any caller may leave them in (invalid operation raised by earlier,
     # unrelated arithmetic): they are sticky and process-wide
     _ = float("inf") - float("inf")
+    # ... and the process runs in one of a few local time zones (POSIX TZ
+    # strings, no tz database needed): nothing in the properties depends on
+    # the time zone of the machine
+    import time
+    os.environ["TZ"] = _PROCESS_TZ[(digest(case) >> 32) % len(_PROCESS_TZ)]
+    time.tzset()
 
 
 def derive_seed(base, name, shard):
